@@ -55,6 +55,7 @@ def table : List Entry := [
   ⟨"Client", "done", .initBeforeFork []⟩,
   ⟨"Client", "ready", .initBeforeFork []⟩,
   ⟨"Client", "isClosed", .atomicOnly⟩,
+  ⟨"Client", "closeSent", .atomicOnly⟩,                      -- write loop sets it, read loop reads it
   ⟨"Client", "version", .guardedBy "versionMu" ["NewClient"]⟩,  -- negotiate() writes it while both loops read it (ver/setVer)
   -- driver.LLRPDevice (internal/driver/device.go)
   ⟨"LLRPDevice", "address", .guardedBy "deviceMu" []⟩,
